@@ -779,6 +779,89 @@ func checkTierIdentity(c *Ctx, rule string) {
 							}
 						}
 					}
+					// (c') the identity test lives in a helper: a call h(.., e, ..) whose result is true only when
+					// all[e.Addr] == e, and the tier call is on the true edge of that result
+					if !guarded {
+						eachInstr(fn, func(_ *ssa.BasicBlock, _ int, x ssa.Instruction) {
+							hc, isCall := x.(*ssa.Call)
+							if !isCall || guarded {
+								return
+							}
+							h := calleeFn(hc.Common())
+							if h == nil || !isModFn(h) || h.Blocks == nil {
+								return
+							}
+							idx := -1
+							for i, a := range hc.Call.Args {
+								if a == e {
+									idx = i
+								}
+							}
+							if idx < 0 || idx >= len(h.Params) || !condEdge(b, hc, true) {
+								return
+							}
+							prm := h.Params[idx]
+							isIdent := func(v ssa.Value, want token.Token) bool {
+								bo, ok := v.(*ssa.BinOp)
+								if !ok || bo.Op != want {
+									return false
+								}
+								return (bo.X == ssa.Value(prm) && fromAll(bo.Y)) || (bo.Y == ssa.Value(prm) && fromAll(bo.X))
+							}
+							var trueImplies func(v ssa.Value, d int) bool
+							trueImplies = func(v ssa.Value, d int) bool {
+								if d > 4 {
+									return false
+								}
+								switch y := v.(type) {
+								case *ssa.Const:
+									return y.Value != nil && y.Value.String() == "false"
+								case *ssa.BinOp:
+									return isIdent(y, token.EQL)
+								case *ssa.Phi:
+									for _, ed := range y.Edges {
+										if !trueImplies(ed, d+1) {
+											return false
+										}
+									}
+									return true
+								case *ssa.UnOp:
+									if y.Op == token.NOT {
+										// !x is true only if x is false: x false must imply identity
+										switch z := y.X.(type) {
+										case *ssa.BinOp:
+											return isIdent(z, token.NEQ)
+										case *ssa.Phi:
+											for _, ed := range z.Edges {
+												if c2, isC := ed.(*ssa.Const); isC && c2.Value != nil && c2.Value.String() == "true" {
+													continue
+												}
+												if bo, isB := ed.(*ssa.BinOp); isB && isIdent(bo, token.NEQ) {
+													continue
+												}
+												return false
+											}
+											return true
+										}
+									}
+								}
+								return false
+							}
+							all := true
+							nret := 0
+							eachInstr(h, func(_ *ssa.BasicBlock, _ int, y ssa.Instruction) {
+								if r, ok := y.(*ssa.Return); ok && len(r.Results) == 1 {
+									nret++
+									if !trueImplies(r.Results[0], 0) {
+										all = false
+									}
+								}
+							})
+							if all && nret > 0 {
+								guarded = true
+							}
+						})
+					}
 					if !guarded {
 						okE = false
 						why = "the object comes from the caller and only its address is looked up, not its identity"
